@@ -55,6 +55,12 @@ inline std::vector<uint64_t> flt_lattice(unsigned w, bool small = false) {
             for (uint64_t mt : mants) { if (small && (k++ % 3) == 2) continue; s.insert(mkf(sg, e, mt)); }
         }
     }
+    // every single mantissa bit (and, for binary64, patterns confined to / straddling the low 32-bit word) for subnormals, NaNs and [1,2):
+    // code that inspects the encoding word-wise or through narrower immediates depends on where the set bits are
+    if (!small) for (uint64_t sg = 0; sg < 2; ++sg) for (uint64_t e : {uint64_t(0), emax, emax >> 1}) {
+        for (unsigned k = 0; k < mb; ++k) { s.insert(mkf(sg, e, uint64_t(1) << k)); s.insert(mkf(sg, e, mmask ^ (uint64_t(1) << k))); }
+        if (w == 64) for (uint64_t mt : {0xFFFFFFFFull, 0x80000000ull, 0x7FFFFFFFull, 0x100000000ull, 0xFFFFF00000000ull, 0x180000000ull, 0x80000001ull, 0xFFFFFFFEull}) s.insert(mkf(sg, e, mt));
+    }
     // integers and half-integers near the representable-integer limits and small ties
     auto addd = [&](double d) {
         if (w == 32) { float f = (float)d; uint32_t b; std::memcpy(&b, &f, 4); s.insert(b); }
